@@ -304,19 +304,35 @@ func checkC12(c C12Case) (o Outcome) {
 		if err := cmd.Run(); err != nil {
 			return "restart failed: " + err.Error()
 		}
-		// the answers only (not the records the saver reports)
+		// the answers (not the records the saver reports: those are only held against what
+		// the store holds at the end - a record is what the library last asked to be kept,
+		// byte for byte, whatever an earlier crash left lying around)
 		var sb strings.Builder
 		dec := json.NewDecoder(&out)
+		last := map[int]string{}
 		for {
 			var r struct {
-				N       int    `json:"n"`
-				Visible string `json:"visible"`
-				Panic   string `json:"panic"`
+				N       int      `json:"n"`
+				Session int      `json:"session"`
+				Visible string   `json:"visible"`
+				Panic   string   `json:"panic"`
+				Saved   []string `json:"saved"`
 			}
 			if dec.Decode(&r) != nil {
 				break
 			}
 			fmt.Fprintf(&sb, "%d:%s panic=%s | ", r.N, r.Visible, r.Panic)
+			if len(r.Saved) > 0 {
+				last[r.Session] = r.Saved[len(r.Saved)-1]
+			}
+		}
+		for si, h := range last {
+			if si < 0 || si >= len(sessions) {
+				continue
+			}
+			if b, err := os.ReadFile(filepath.Join(store, "@"+sessions[si])); err == nil && hex.EncodeToString(b) != h {
+				fmt.Fprintf(&sb, "RECORD-NOT-AS-SAVED session %s: the store holds %d bytes, the library last asked it to keep %d | ", sessions[si], len(b), len(h)/2)
+			}
 		}
 		return sb.String()
 	}
@@ -443,7 +459,13 @@ func checkC12(c C12Case) (o Outcome) {
 				// crash states in which a record shares its file with another name, and a sample
 				// of the others
 				restarts++
-				if state.Aliased() || restarts%16 == 0 {
+				strayScratch := false
+				for _, n := range names(state.Files(), dir) {
+					if strings.HasPrefix(filepath.Base(n), ".") {
+						strayScratch = true // the crash left a scratch file behind
+					}
+				}
+				if state.Aliased() || restarts%16 == 0 || (strayScratch && restarts%3 == 0) {
 					st.restarts++
 					gotR := restartFrom(func(root string) error { return state.Materialise(dir, root) }, s, k)
 					wantR := ""
